@@ -374,6 +374,8 @@ UNITS = [{
         'impl Heap::free_size': {'props': H, 'ensures': [(H, 'r == self.free_cells().len()')]},
         'impl Heap::sweep': {
             'props': HS + ['C06'],
+            # facts established before the loop (e.g. a loop bound bound to a local first) stay visible inside it
+            'attrs': '#[verifier::loop_isolation(false)]',
             'requires': ['old(self).wf()'],
             'ensures': [
                 (HS, 'final(self).wf()'),
